@@ -360,6 +360,7 @@ def run(ctx):
     from . import c10, c16
     ctx.do(c10.r10_4_units, modules=("pop3_client", "mbox"))
     ctx.do(c16.r16_1)
-    from . import c05
+    from . import c03, c05
     ctx.do(c05.r5_3)
+    ctx.do(c03.r3_6)  # POP3 reads run beside a suspended expunge: the lists they index must never be half-updated
     ctx.note("R20.6 (sizes from the shared renderer) is decided by C16 R16.1")
